@@ -291,3 +291,11 @@ package etcd
 //@   ensures [one-backend-count-as-asked] backend_reads == old(backend_reads)+1 && be_op == 6 && be_req != nil && Q.Key == r.Key && Q.End == r.RangeEnd
 //@   ensures [errors-pass-through] (err == nil) == (be_err == nil) && (err != nil ==> resp == nil)
 //@   ensures [header-and-count-are-the-backends] err == nil ==> resp != nil && resp.Header != nil && resp.Header.Revision == int64(R.Header.Revision) && resp.Count == int64(R.Count)
+
+// the goroutine that turns backend event batches into etcd events: the backend's events are shared (the
+// same objects sit in the event cache and go to every watcher), so the conversion may only read them --
+// everything it writes is its own freshly built etcd events
+//@ func (*backendShim).Watch$1(ctx, in, out)
+//@   props C16
+//@   nosafety
+//@   modifies []*mvccpb.Event mvccpb.Event.Type mvccpb.Event.Kv mvccpb.Event.PrevKv mvccpb.KeyValue.Key mvccpb.KeyValue.Value mvccpb.KeyValue.ModRevision mvccpb.KeyValue.CreateRevision mvccpb.KeyValue.Version mvccpb.KeyValue.Lease ghost.chan_len ghost.chan_log ghost.chan_closed ghost.chan_sobj ghost.chan_soff ghost.chan_slen
